@@ -63,6 +63,33 @@ CHECKS = {
                      'clock, fault or scheduler is involved, only history/interleaving of edits and view accesses.',
                 note='Real frame.py with cv2/numpy; model trusts cv2.cvtColor / imdecode as ground truth for conversions.',
                 technique='seeded history simulation against an executable reference model (no scheduler/faults involved)'),
+    'C13': dict(level='exploration', ref='DESIGN.md 4 C13',
+                text='One writer, 1-2 readers, an external deleter and a stepping wall clock over a simulated file system; '
+                     'seeded operation histories (write with given/equal/backward timestamps, read, read_block, seek, tell, '
+                     'refresh, close/reopen, external delete, clock steps) in all four modes against a list model of '
+                     '(file, offset, record): exactly-once in order except for whole deleted files, disk budget, newest '
+                     'file kept, no overwrite of an existing file. Thorough adds file-system-call-granularity interleaving '
+                     'of writer and reader under the scheduler.',
+                note='Real rolllog.py on a simulated POSIX-like FS (sim/fs.py: buffering, unlink-while-open, atomic rename) '
+                     'and a virtual clock; process-crash semantics; histories after an unknowable backward clock step '
+                     '(all newer files vanished before the writer started) are judged for overwrite/budget only.'),
+    'C14': dict(level='fault_enumeration', ref='DESIGN.md 4 C14',
+                text='Seeded histories of writes (with pruning), reads and position saves; for every history the reader '
+                     'process is crashed at every file-system operation of every save (create temp, write, close, rename, '
+                     'before/after each) and at sampled points between reader operations, then restarted (several cycles): '
+                     'restart never fails, resumes from the old or the new position, skips nothing still on disk, '
+                     're-delivers only the unsaved window.',
+                note='Crash points inside saves are enumerated exhaustively per history; the histories are sampled. Process '
+                     'crash (completed FS calls persist, Python-level buffers are lost), not power loss.'),
+    'C15': dict(level='exploration', ref='DESIGN.md 4 C15',
+                text='Each of the 10 filter classes runs its real constructor, normalize_config, init (simulated network, '
+                     'real lineage START) and - for Filter, Util, VideoIn, VideoOut, ImageIn - real setup/process with stubbed '
+                     'external I/O, on normal and fault paths, with a credentialed URI at a drawn configuration position; two '
+                     'run-unique password tokens must not occur in any log record, wire frame or lineage event. Part of this '
+                     'is input sampling (the quantifier ranges over configurations); the simulator contributes the observation '
+                     'of everything emitted on normal and fault paths.',
+                note='vidgear, uvicorn, MQTT broker and the real file system are stubs; Recorder/ImageOut/MQTTOut/REST/Webvis '
+                     'run stub setup/process. Ten open known findings (leak sites not repaired).'),
     'C18': dict(level='exploration', ref='DESIGN.md 4 C18',
                 text='Every ending of C08 with the real OpenFilterLineage attached (capturing client), its heartbeat thread '
                      'a scheduler task so that every Event/Lock/emit interleaving with the run thread is a seeded choice, '
@@ -78,8 +105,7 @@ NOT_APPLICABLE = {
     'C17': 'pure function of (image, parameters) (DESIGN.md 5)',
 }
 
-PENDING = {pid: 'check still under construction in this build (claimed in DESIGN.md; will move to checks[] when its machinery is committed)'
-           for pid in ('C13', 'C14', 'C15')}
+PENDING = {}
 
 
 def build():
